@@ -635,32 +635,61 @@ def l3_l4_worker(cc, sdir, wid, master, start, step, families, deadline):
                         f.write("#ifndef %s\n#define %s\n%s#endif\n" % (g, g, body))
                     else:
                         f.write(body)   # no protection: appears once per inclusion
-            order = []
+            # a history of inclusions and of #undef of include guards: a guarded header is skipped exactly while its
+            # guard is defined (model: one flag per guard), a #pragma once header after its first inclusion, an
+            # unprotected one never
+            kinds = {}
+            for k, name in enumerate(hdrs):
+                body = open(os.path.join(wd, name)).read()
+                kinds[k] = "once" if body.startswith("#pragma") else "guard" if body.startswith("#ifndef") else "plain"
+            ops = []
             for _ in range(r.range(1, 3)):
                 o = list(range(len(hdrs)))
                 r.shuffle(o)
-                order += o
-            styles = {}
-            src = "".join('#include "%s"\n' % hdrs[k] for k in order)
+                for k in o:
+                    ops.append(("inc", k))
+                    if r.below(3) == 0:
+                        ops.append(("inc", r.pick(o)))
+                    if r.below(4) == 0:
+                        g = r.pick(o)
+                        if kinds[g] == "guard":
+                            ops.append(("undef", g))
+            src_lines, want = [], {}
+            seen_once, guard_def = set(), set()
+            for op, k in ops:
+                if op == "undef":
+                    src_lines.append("#undef G_%s" % hdrs[k].replace(".", "_").upper())
+                    guard_def.discard(k)
+                    continue
+                src_lines.append('#include "%s"' % hdrs[k])
+                if kinds[k] == "once":
+                    if k not in seen_once:
+                        want[k] = want.get(k, 0) + 1
+                    seen_once.add(k)
+                elif kinds[k] == "guard":
+                    if k not in guard_def:
+                        want[k] = want.get(k, 0) + 1
+                    guard_def.add(k)
+                else:
+                    want[k] = want.get(k, 0) + 1
+            src = "\n".join(src_lines) + "\n"
             with open(os.path.join(wd, "inc.c"), "w") as f:
                 f.write(src)
             p = subprocess.run([cc, "-E", os.path.join(wd, "inc.c")], stdout=subprocess.PIPE, stderr=subprocess.PIPE)
             res["l4_runs"] += 1
             res["l4_headers"] += len(hdrs)
+            res["l4_guard_undefs"] = res.get("l4_guard_undefs", 0) + sum(1 for op, _ in ops if op == "undef")
             got = {}
             for l in p.stdout.decode(errors="replace").splitlines():
                 w = l.split()
                 if len(w) >= 2 and w[0] == '"H"':
                     got[int(w[1])] = got.get(int(w[1]), 0) + 1
-            want = {}
-            for k in order:
-                prot = open(os.path.join(wd, hdrs[k])).read().startswith("#")
-                want[k] = 1 if prot else want.get(k, 0) + 1
             if p.returncode != 0 or got != want:
-                bad = [k for k in want if got.get(k, 0) != want[k]][:3]
-                res["viol"].append(("l4 class=include-once", seed, {"engine": "histsim-l4", "seed": seed, "headers": dict((h, open(os.path.join(wd, h)).read()) for h in hdrs), "source": src},
+                bad = [k for k in sorted(set(want) | set(got)) if got.get(k, 0) != want.get(k, 0)][:3]
+                res["viol"].append(("l4 class=include-once", seed, {"engine": "histsim-l4", "seed": seed, "headers": dict((h, open(os.path.join(wd, h)).read()) for h in hdrs), "source": src,
+                                                                     "expected_counts": dict((hdrs[k], v) for k, v in want.items())},
                                     "chibicc -E exit %d; headers expanded a wrong number of times: %s\n%s" % (
-                                        p.returncode, ", ".join("%s x%d (expected x%d)" % (hdrs[k], got.get(k, 0), want[k]) for k in bad), p.stderr.decode(errors="replace")[-300:])))
+                                        p.returncode, ", ".join("%s x%d (expected x%d)" % (hdrs[k], got.get(k, 0), want.get(k, 0)) for k in bad), p.stderr.decode(errors="replace")[-300:])))
             for h in hdrs:
                 os.unlink(os.path.join(wd, h))
             continue
@@ -705,8 +734,8 @@ def level34(cc, sdir, master, families, rep, stats, seconds):
         results = pool.starmap(l3_l4_worker, [(cc, sdir, w, master, w, NCPU, families, deadline) for w in range(NCPU)])
     hashes, samples = set(), []
     for r in results:
-        for k in ("l3_runs", "l3_probes", "l3_big", "l4_runs", "l4_headers"):
-            stats[k] = stats.get(k, 0) + r[k]
+        for k in ("l3_runs", "l3_probes", "l3_big", "l4_runs", "l4_headers", "l4_guard_undefs"):
+            stats[k] = stats.get(k, 0) + r.get(k, 0)
         hashes |= r["hashes"]
         samples += r["samples"]
         for ident, seed, plan, text in r["viol"]:
@@ -729,12 +758,9 @@ def l34_replay(cc, sdir, plan):
             w = l.split()
             if len(w) >= 2 and w[0] == '"H"':
                 got[int(w[1])] = got.get(int(w[1]), 0) + 1
-        names = list(plan["headers"])
         want = {}
-        for l in plan["source"].splitlines():
-            h = l.split('"')[1]
-            k = int(plan["headers"][h].split('"H" ')[1].split()[0])
-            want[k] = 1 if plan["headers"][h].startswith("#") else want.get(k, 0) + 1
+        for hname, cnt in plan.get("expected_counts", {}).items():
+            want[int(plan["headers"][hname].split('"H" ')[1].split()[0])] = cnt
         return ("include-once", "got %s want %s" % (got, want)) if (p.returncode != 0 or got != want) else (None, "")
     open(os.path.join(wd, "p.c"), "w").write(plan["source"])
     p = subprocess.run([cc, "-c", os.path.join(wd, "p.c"), "-o", os.path.join(wd, "p.o")], stdout=subprocess.PIPE, stderr=subprocess.PIPE)
@@ -844,6 +870,7 @@ def main(argv):
             "l3_programs_with_120..420_names": stats.get("l3_big", 0),
             "l4_include_once_files": stats.get("l4_runs", 0),
             "l4_headers_included": stats.get("l4_headers", 0),
+            "l4_include_guards_undefined_between_inclusions": stats.get("l4_guard_undefs", 0),
         },
         "components": {"real": ["/repo/hashmap.c (unmodified, ASan+UBSan)", "level 2: whole chibicc driver + cc1 preprocessor built from the working tree"],
                        "stub": ["level 1: error()/format() (error() reports an abort to the harness)"],
